@@ -346,6 +346,15 @@ func parserMutate(r *rand.Rand, s string) string {
 		}
 		return parserAlphabet[r.Intn(len(parserAlphabet))]
 	}
+	if r.Intn(12) == 0 {
+		// a valid multi-byte rune whose low byte spells an ASCII letter or digit, somewhere in the text
+		cp := rune(0x100*(1+r.Intn(0x2ff)) + int("azAZ09_-"[r.Intn(8)]))
+		if cp >= 0xD800 && cp < 0xE000 {
+			cp += 0x1000
+		}
+		i := r.Intn(len(b) + 1)
+		b = append(b[:i:i], append([]byte(string(cp)), b[i:]...)...)
+	}
 	for k := 1 + r.Intn(2); k > 0; k-- {
 		if len(b) == 0 {
 			b = append(b, pick())
@@ -406,6 +415,31 @@ func genParser(r *rand.Rand, tier string, emit Emit) {
 			"/{a: /x" + x + "y/}", "/{a:" + x + "b}", "/{a: b" + x + "c: d}", "/{a: b}" + x, "/" + x + "{a}"} {
 			c.parse(s)
 		}
+	}
+
+	// 0b. rune sweep: multi-byte UTF-8 characters (every two-byte rune, a stride through the three-byte ones, a few
+	//     four-byte ones) in the positions a character class decides about — a rune is never an identifier/regex
+	//     character, whatever its low byte spells (rune/byte confusions in hand-written scanners)
+	runeAt := func(x string) {
+		for _, s := range []string{"/" + x, "/a" + x + "b", "/webapi/" + x + "koda", "/{" + x + "}", "/{a: " + x + "}", "/{a: /" + x + "/}", "/{a" + x + ": v}"} {
+			c.parse(s)
+		}
+	}
+	for cp := 0x80; cp < 0x800; cp++ {
+		runeAt(string(rune(cp)))
+	}
+	stride := 97
+	if thorough {
+		stride = 7
+	}
+	for cp := 0x800; cp < 0x10000; cp += stride {
+		if cp >= 0xD800 && cp < 0xE000 {
+			continue
+		}
+		runeAt(string(rune(cp)))
+	}
+	for _, cp := range []int{0x10000, 0x10061, 0x1F600, 0x1F62F, 0x10FFFF, 0x2F800 + 'a'} {
+		runeAt(string(rune(cp)))
 	}
 
 	// 1. small-scope exhaustive. Root accepts only '/', so beyond a short unrestricted sweep the
